@@ -452,7 +452,7 @@ def run(ctx, prop):
             p = os.path.join(d, "splice-%d.bin" % c["id"])
             open(p, "wb").write(first + data)
             c["chunks"], c["ops"] = [{"file": p}], []
-    extra = ("--watchdog", "60s") + (("--mem",) if prop == "C07" else ())
+    extra = ("--watchdog", "180s") + (("--mem",) if prop == "C07" else ())
     recs, faults = fl.shard_run(b, "frame-read", cases, d, "r", extra=extra, timeout=3000)
     crashed = []
     if faults:
@@ -550,6 +550,11 @@ def confirm(ctx, prop, b, d, c, rec, extra):
         if rej2:
             break
     if not rej2:
+        if rec.get("outcome") == "hang":
+            # the watchdog expired once and the same input then ran to its end %d times: the machine was slow, the call
+            # was not stuck (a call that never returns does not return on re-execution either)
+            ctx.notes.append("watchdog expiry not reproduced in %d re-executions (load): %s" % (tries, key))
+            return
         ctx.unreproducible("%s: %s" % (key, json.dumps(rec)[:300]))
         return
     obs = {k: v for k, v in r2.items() if k not in ("bytes", "delivered", "content", "log")}
@@ -585,7 +590,7 @@ def replay(ctx, prop, path):
     if any(ch.get("file") and not os.path.exists(ch["file"]) for ch in c["chunks"]):
         print("replay needs a base frame that was in scratch space; re-run the check (seed in the evidence file)")
         return 2
-    extra = ("--watchdog", "60s") + (("--mem",) if prop == "C07" else ())
+    extra = ("--watchdog", "180s") + (("--mem",) if prop == "C07" else ())
     rr, faults = fl.shard_run(b, "frame-read", [c], d, "r", nshards=1, extra=extra)
     if c["id"] not in rr:
         print("VIOLATION property=%s replay=%s" % (prop, path))
